@@ -12,17 +12,27 @@ THEOREMS = [
     'Ndn.C01.make_interest_is_core', 'Ndn.C01.make_interest_params_wire', 'Ndn.C01.make_interest_plain_wire',
     'Ndn.C01.parse_make_interest', 'Ndn.C01.parse_make_interest_params', 'Ndn.C01.parse_make_interest_plain',
     'Ndn.Packet.interest_items', 'Ndn.Packet.parse_interest_value',
+    # a caller-supplied ParametersSha256Digest placeholder at any position; an unsigned Data with its OffsetMarker fields
+    'Ndn.C01.make_interest_is_core_params', 'Ndn.C01.make_interest_is_core_at', 'Ndn.C01.make_interest_wire_at', 'Ndn.C01.make_interest_params_wire_at',
+    'Ndn.C01.parse_make_interest_placeholder', 'Ndn.C01.parse_make_interest_params_placeholder',
+    'Ndn.Packet.parseInterest_signed_at', 'Ndn.Packet.parseInterest_params_at',
+    'Ndn.C01.parse_data_value', 'Ndn.C01.parse_make_data_unsigned',
     'Ndn.Gen.C01.schemas_match',
 ]
 PARTIAL = {
     'Ndn.C01.parse_make_data_partial':
-        'parse(make(x)) = x is proved for the Data Value fields through the generic round trip (C08) on the marker-free '
-        'field list (the statement with the five OffsetMarker pseudo-fields of a signed Data is '
-        'Ndn.C02.parsed_cover_is_signed_portion_data). The Interest side is proved by parse_make_interest (signed), '
-        'parse_make_interest_params (unsigned with ApplicationParameters) and parse_make_interest_plain, all for names '
-        'without a caller-supplied ParametersSha256Digest component; an Interest whose name already carries a digest '
-        'placeholder, and an unsigned Data with its markers, rest on the correspondence (every generated packet is parsed '
-        'back by both model and code and compared field by field)',
+        'the theorem of this name is the marker-free statement (Data Value fields through the generic round trip, C08). '
+        'The statements on the full field lists are: signed Data - Ndn.C02.parsed_cover_is_signed_portion_data; unsigned '
+        'Data with its five OffsetMarker pseudo-fields - parse_make_data_unsigned (same name / MetaInfo / Content, markers '
+        '0, no SignatureValue, empty signature pointers); Interests without a digest component in the given name - '
+        'parse_make_interest (signed), parse_make_interest_params (unsigned with ApplicationParameters), '
+        'parse_make_interest_plain; Interests whose name carries a caller-supplied ParametersSha256Digest placeholder '
+        '02 20 <32 bytes> at ANY position - parse_make_interest_placeholder / parse_make_interest_params_placeholder '
+        '(final name = parsed name = the given name with the placeholder value replaced by H of the bytes from '
+        'ApplicationParameters to the end of the Interest, which is also the digest-covered range the parser reports; '
+        'parameters, ApplicationParameters, SignatureInfo, signature value unchanged). What still rests on the '
+        'correspondence only: a Type-2 component in the given name that is NOT a 34-byte 02 20 <32 bytes> element (a '
+        'malformed placeholder: make_interest writes the digest over the 32 bytes behind its first two)',
 }
 TRUSTED = [
     'C01: the signer is abstract (it reserves `reserved` bytes and writes `sig`); the bytes it wrote are recorded from the real signer by a proxy and handed to the model, so no cryptography is modelled',
@@ -53,8 +63,10 @@ LEVEL_TEXT = ('Lean 4 theorems about the model of make_data / make_interest: for
               'ApplicationParameters, _sig_cover_end unset). The model is tied to ndn_format_0_3.py by differential '
               'execution on generated packets, including wire bytes, signed bytes, final name, and everything parse_* returns.')
 LEVEL_NOTE = ('Model = code is sampled. Signers are abstract (their output is recorded). Interests whose name already '
-              'carries a caller-supplied digest component and the marker offsets of an unsigned Data are covered by '
-              'correspondence + oracle, not by a theorem.')
+              'carries a caller-supplied 34-byte digest placeholder (any position) and an unsigned Data with its marker '
+              'pseudo-fields are theorems too (parse_make_interest_placeholder, parse_make_interest_params_placeholder, '
+              'parse_make_data_unsigned); a Type-2 name component that is not a 34-byte placeholder is covered by '
+              'correspondence + oracle only.')
 TECHNIQUE = 'Lean 4 proof (shrink_length correctness for all sizes + generic codec round trip) + model/implementation correspondence'
 DESIGN_REF = 'DESIGN.md section 7, C01'
 
